@@ -23,9 +23,9 @@ FLAVOURS = {
     # the shipped default: no contract macros
     "off-asan": {"cxx": "g++", "flags": SAN, "run_scale": 0.35},
     "chk-O0": {"cxx": "g++", "flags": ["-O0", "-DTETL_ENABLE_CONTRACT_CHECKS=1"], "run_scale": 0.5},
-    # a second compiler (clang 14 cannot compile the bitset, variant and tuple_cat headers: P0634, pack expansion and CTAD-in-lambda gaps, so
-    # those three families are g++ only); exercises the `#if defined(__clang__)` branches and another optimiser
-    "chk-clang": {"cxx": "clang++", "flags": ["-O2", "-DTETL_ENABLE_CONTRACT_CHECKS=1"], "run_scale": 0.5, "skip_families": ["bits", "ovx", "fn"]},
+    # a second compiler (clang 14 cannot compile the bitset and variant headers - P0634 and pack-expansion gaps - so those two
+    # families are g++ only; tuple_cat does not compile either and is skipped by the fn driver under clang); exercises the `#if defined(__clang__)` branches and another optimiser
+    "chk-clang": {"cxx": "clang++", "flags": ["-O2", "-DTETL_ENABLE_CONTRACT_CHECKS=1"], "run_scale": 0.5, "skip_families": ["bits", "ovx"]},
     # plain binary for the valgrind/memcheck pass: the arena is handed to memcheck as undefined before each construction
     "vg-O1": {"cxx": "g++", "flags": ["-O1", "-g1", "-DSIM_VALGRIND=1", "-DTETL_ENABLE_CONTRACT_CHECKS=1"], "run_scale": 0.0},
 }
@@ -47,7 +47,7 @@ PROPS = {
                 "event log (interpreted operations, outcomes and observed states) of non-trivial runs",
         "assumptions": COMMON_ASSUME,
         "quick": {"flavours": ["chk-O2"], "runs": 1200000, "max_seconds": 40},
-        "thorough": {"flavours": ["chk-O2", "chk-asan", "off-asan", "chk-O0"], "runs": 12000000, "max_seconds": 240},
+        "thorough": {"flavours": ["chk-O2", "chk-asan", "off-asan", "chk-O0", "chk-clang"], "runs": 12000000, "max_seconds": 240},
     },
     "C04": {
         "families": ["str"],
@@ -59,7 +59,7 @@ PROPS = {
                 "Non-trivial and distinct as for C01",
         "assumptions": COMMON_ASSUME,
         "quick": {"flavours": ["chk-O2"], "runs": 1200000, "max_seconds": 40},
-        "thorough": {"flavours": ["chk-O2", "chk-asan", "off-asan", "chk-O0"], "runs": 12000000, "max_seconds": 240},
+        "thorough": {"flavours": ["chk-O2", "chk-asan", "off-asan", "chk-O0", "chk-clang"], "runs": 12000000, "max_seconds": 240},
     },
     "C07": {
         "families": ["ovx"],
@@ -72,7 +72,7 @@ PROPS = {
                 "get_if/holds_alternative and one- and two-variant visit are compared; non-trivial and distinct as for C01",
         "assumptions": COMMON_ASSUME + ["std::expected is C++23: a 10-line (has_value, value) model stands in for it; the variant model is (index, value) with std::variant's index-then-value ordering"],
         "quick": {"flavours": ["chk-O2"], "runs": 1000000, "max_seconds": 40},
-        "thorough": {"flavours": ["chk-O2", "chk-asan", "off-asan", "chk-O0"], "runs": 10000000, "max_seconds": 240},
+        "thorough": {"flavours": ["chk-O2", "chk-asan", "off-asan", "chk-O0", "chk-clang"], "runs": 10000000, "max_seconds": 240},
     },
     "C09": {
         "families": ["set"],
@@ -84,7 +84,7 @@ PROPS = {
                 "and strict ordering is checked with the set's own comparator; non-trivial and distinct as for C01",
         "assumptions": COMMON_ASSUME,
         "quick": {"flavours": ["chk-O2"], "runs": 1000000, "max_seconds": 40},
-        "thorough": {"flavours": ["chk-O2", "chk-asan", "off-asan", "chk-O0"], "runs": 10000000, "max_seconds": 240},
+        "thorough": {"flavours": ["chk-O2", "chk-asan", "off-asan", "chk-O0", "chk-clang"], "runs": 10000000, "max_seconds": 240},
     },
     "C17": {
         "families": ["bits"],
@@ -97,7 +97,7 @@ PROPS = {
                 "fault fired, cross-object step); distinct = distinct event-log hashes of non-trivial runs",
         "assumptions": COMMON_ASSUME,
         "quick": {"flavours": ["chk-O2"], "runs": 1000000, "max_seconds": 40},
-        "thorough": {"flavours": ["chk-O2", "chk-asan", "off-asan", "chk-O0"], "runs": 8000000, "max_seconds": 240},
+        "thorough": {"flavours": ["chk-O2", "chk-asan", "off-asan", "chk-O0", "chk-clang"], "runs": 8000000, "max_seconds": 240},
     },
     "C20": {
         "families": ["fn"],
@@ -111,7 +111,7 @@ PROPS = {
                 "non-trivial and distinct as for C01",
         "assumptions": COMMON_ASSUME,
         "quick": {"flavours": ["chk-O2"], "runs": 1000000, "max_seconds": 40},
-        "thorough": {"flavours": ["chk-O2", "chk-asan", "off-asan", "chk-O0"], "runs": 8000000, "max_seconds": 240},
+        "thorough": {"flavours": ["chk-O2", "chk-asan", "off-asan", "chk-O0", "chk-clang"], "runs": 8000000, "max_seconds": 240},
     },
     "C02": {
         "families": ["vec", "str", "set", "ovx", "bits", "fn", "views"],
@@ -132,8 +132,8 @@ PROPS = {
                 "an address-keyed lifetime registry, the live set inside each owner must equal [begin,end) after every step "
                 "and be empty after the owner's destructor; non-trivial and distinct as for C01",
         "assumptions": COMMON_ASSUME,
-        "quick": {"flavours": ["chk-O2"], "runs": 1200000, "max_seconds": 40},
-        "thorough": {"flavours": ["chk-O2", "chk-asan", "off-asan", "chk-O0"], "runs": 12000000, "max_seconds": 240},
+        "quick": {"flavours": ["chk-O2", "chk-clang"], "runs": 1200000, "max_seconds": 40},
+        "thorough": {"flavours": ["chk-O2", "chk-asan", "off-asan", "chk-O0", "chk-clang"], "runs": 12000000, "max_seconds": 240},
     },
     "C05": {
         "families": ["vec", "str", "set", "ovx", "bits", "fn", "views"],
@@ -145,7 +145,7 @@ PROPS = {
                 "non-trivial and distinct as for C01",
         "assumptions": COMMON_ASSUME,
         "quick": {"flavours": ["chk-O2", "safe-O2", "chk-asan"], "runs": 600000, "max_seconds": 40},
-        "thorough": {"flavours": ["chk-O2", "chk-asan", "safe-asan", "chk-O0"], "runs": 10000000, "max_seconds": 240},
+        "thorough": {"flavours": ["chk-O2", "chk-asan", "safe-asan", "chk-O0", "chk-clang"], "runs": 10000000, "max_seconds": 240},
     },
 }
 
